@@ -98,10 +98,11 @@ def s_xns(tier='quick'):
 
 # ------------------------------------------------------------------------------------------------ C11: import graphs
 
-def import_graph(nfiles=3, slots=2, with_missing=False, with_wellknown=False):
+def import_graph(nfiles=3, slots=2, with_missing=False, with_wellknown=False, names=None, tag=None):
     """files f0..f(n-1); every file has `slots` import slots whose target is symbolic over {none, f0.., [missing], [well-known ns]};
     the start file is symbolic too: one exploration covers every import multigraph of that size"""
-    names = ['f%d.xsd' % i for i in range(nfiles)]
+    names = list(names) if names else ['f%d.xsd' % i for i in range(nfiles)]
+    nfiles = len(names)
     opts = [ABSENT] + names + (['missing.xsd'] if with_missing else [])
     sels = []
     files = {}
@@ -127,7 +128,7 @@ def import_graph(nfiles=3, slots=2, with_missing=False, with_wellknown=False):
         files[fn] = sch
     start = Selector('start', names)
     sels.append(start)
-    sc = Scenario('imports-%d-%d%s%s' % (nfiles, slots, '-missing' if with_missing else '', '-wk' if with_wellknown else ''),
+    sc = Scenario(tag or 'imports-%d-%d%s%s' % (nfiles, slots, '-missing' if with_missing else '', '-wk' if with_wellknown else ''),
                   files, start, sels)
     return sc, Info(schemas=schemas, names=names, edges=edges, start=start, opts=opts, nfiles=nfiles, slots=slots)
 
@@ -577,3 +578,45 @@ def inject_all(tier='quick'):
     for grp in (('site_operation_name', 'site_service_name'), ('site_element_name', 'site_header_part_name'), ('site_location', 'site_soap_action')):
         out.append(inject_wsdl(tier, grp))
     return out
+
+
+
+def import_nolocation():
+    """an import WITHOUT schemaLocation whose namespace is the target namespace of a sibling file: the sibling stays unreachable"""
+    f0 = Schema('urn:f0', [CT('T0', Seq([El('x0', 'xs:string')]))], prefixes={'t': 'urn:f0'}, imports=[('urn:f1', ABSENT)])
+    f1 = Schema('urn:f1', [CT('T1', Seq([El('x1', 'xs:string')]))], prefixes={'t': 'urn:f1'})
+    start = Selector('start', ['f0.xsd'])
+    from xmltree import build as _b, to_xml as _x
+    # concrete documents are handed over as real XML text (code that looks at the raw text sees what it would see natively)
+    sc = Scenario('imports-no-location', {'f0.xsd': _x(_b(f0.tree())), 'f1.xsd': _x(_b(f1.tree()))}, start, [start])
+    return sc, Info(schemas={'f0.xsd': f0, 'f1.xsd': f1}, names=['f0.xsd', 'f1.xsd'], edges={0: [], 1: []}, start=start, opts=[ABSENT, 'f0.xsd', 'f1.xsd'], nfiles=2, slots=0)
+
+
+def s_typenames(tier='quick'):
+    """the NAME of a user type, used both where it is declared and where it is referenced (type=, element ref=), over
+    spellings that PascalCase changes: acronyms, snake / kebab case, digits"""
+    tn = Selector('type_name', ['Inner', 'HTTPStatus', 'ISOCurrency', 'inner_type', 'inner-type', 'Inner2Go', 'innerType'])
+    gn = Selector('element_name', ['Note', 'HTTPNote', 'note_text'])
+    inner = CT(tn, Seq([El('b', 'xs:int')]))
+    gel = GEl(gn, content=Seq([El('token', 'xs:string')]), doc='a documented global element with an anonymous type')
+    tref = smap(lambda n: 't:' + n, tn.sym())
+    gref = smap(lambda n: 't:' + n, gn.sym())
+    holder = CT('Holder', Seq([El('first', tref), El(ref=gref), El('many', tref, '0', 'unbounded')]))
+    sch = Schema(NS1, [inner, gel, holder], prefixes={'t': NS1})
+    sc = Scenario('S-typenames', {'a.xsd': sch}, 'a.xsd', [tn, gn])
+    return sc, Info(schemas={'a.xsd': sch}, subjects=[('a.xsd', holder), ('a.xsd', inner)], anon=[('a.xsd', gel)], simple=[])
+
+
+def w_out_hdr(tier='quick'):
+    """request AND response carry a header; both messages call the header part `context` but refer to different elements"""
+    els = [body_el('LookupRequest'), body_el('LookupResponse'), GEl('RequestContext', content=Seq([El('rid', 'xs:string')])),
+           GEl('ResponseContext', content=Seq([El('sid', 'xs:string')]))]
+    msgs = [Msg('LookupIn', [('parameters', 'tns:LookupRequest'), ('context', 'tns:RequestContext')]),
+            Msg('LookupOut', [('parameters', 'tns:LookupResponse'), ('context', 'tns:ResponseContext')])]
+    op = Op('Lookup', 'tns:LookupIn', 'tns:LookupOut', body_parts='parameters', out_body_parts='parameters', headers=['context'], out_headers=['context'],
+            action='http://example.com/a')
+    sch = Schema(NSW, els, prefixes={})
+    w = Wsdl(NSW, sch, msgs, [op])
+    sc = Scenario('W-out-hdr', {'svc.wsdl': w.tree()}, 'svc.wsdl', [])
+    return sc, Info(wsdl=w, svc='OrdersService',
+                    ops=[dict(name='Lookup', body_el='LookupRequest', headers=['RequestContext'], has_output=True, out_el='LookupResponse', out_headers=['ResponseContext'])])
